@@ -124,21 +124,9 @@ func c19Build(id int, raw json.RawMessage) *Job {
 	items := c14Rename(&tc)
 	// locals that are never assigned again may carry a <const> attribute (every second one, by position); every method
 	// definition gets its own name
-	written := map[int]bool{}
-	for _, it := range items {
-		switch it.K {
-		case "assign", "gfunc":
-			written[it.Nb] = true
-		case "assign2":
-			written[it.Nb], written[it.Mb] = true, true
-		}
-	}
+	scMarkAttr(items)
 	for i := range items {
-		it := &items[i]
-		if it.K == "local" && it.Fl != "none" && !written[it.ID] && i%2 == 0 {
-			it.Attr = true
-		}
-		if it.K == "meth" {
+		if it := &items[i]; it.K == "meth" {
 			it.MName = fmt.Sprintf("mm%d", i)
 		}
 	}
